@@ -550,3 +550,114 @@ func KindNames(k []lexer.TokenType) string {
 	}
 	return strings.Join(p, " ")
 }
+
+// ---- long sentences: pumping the loops of the grammar ----
+
+// Loop is an alternative of Rule one of whose elements (at Pos) can derive Rule
+// again (directly: the element is Rule; indirectly: through Via, a chain of steps
+// from that element's rule down to Rule).
+type Loop struct {
+	Rule string
+	Alt  int
+	Pos  int
+	Via  []Step
+}
+
+// chainFrom returns a shortest chain of steps from rule start down to rule target
+// (nil, true when start == target).
+func (t Table) chainFrom(start, target string, min map[string]int) ([]Step, bool) {
+	if start == target {
+		return nil, true
+	}
+	chains := map[string][]Step{start: nil}
+	queue := []string{start}
+	for len(queue) > 0 {
+		r := queue[0]
+		queue = queue[1:]
+		for ai, a := range t[r] {
+			if _, ok := t.altLen(a, min); !ok {
+				continue
+			}
+			for i, e := range a {
+				if e.Sym == "" {
+					continue
+				}
+				if _, seen := chains[e.Sym]; seen {
+					continue
+				}
+				chains[e.Sym] = append(append([]Step{}, chains[r]...), Step{r, ai, i})
+				if e.Sym == target {
+					return chains[e.Sym], true
+				}
+				queue = append(queue, e.Sym)
+			}
+		}
+	}
+	return nil, false
+}
+
+// Loops lists every (rule, alternative, position) through which a rule derives itself.
+func (t Table) Loops(min map[string]int) []Loop {
+	var out []Loop
+	for _, r := range t.Rules() {
+		for ai, a := range t[r] {
+			if _, ok := t.altLen(a, min); !ok {
+				continue
+			}
+			for i, e := range a {
+				if e.Sym == "" {
+					continue
+				}
+				if via, ok := t.chainFrom(e.Sym, r, min); ok {
+					out = append(out, Loop{Rule: r, Alt: ai, Pos: i, Via: via})
+				}
+			}
+		}
+	}
+	return out
+}
+
+// via derives from the first rule of chain down to its end, where inner() is
+// spliced in; every other symbol is expanded minimally.
+func (t Table) via(chain []Step, min map[string]int, inner func() []lexer.TokenType) []lexer.TokenType {
+	if len(chain) == 0 {
+		return inner()
+	}
+	st := chain[0]
+	var out []lexer.TokenType
+	for i, e := range t[st.Rule][st.Alt] {
+		switch {
+		case e.Sym == "":
+			out = append(out, e.Tok)
+		case i == st.Pos:
+			out = append(out, t.via(chain[1:], min, inner)...)
+		default:
+			out = append(out, t.MinSentence(e.Sym, min, nil)...)
+		}
+	}
+	return out
+}
+
+// Pumped derives a sentence from START that reaches l.Rule along toRule and goes
+// n times round the loop l before finishing minimally.
+func (t Table) Pumped(toRule []Step, l Loop, n int, min map[string]int) []lexer.TokenType {
+	var round func(k int) []lexer.TokenType
+	round = func(k int) []lexer.TokenType {
+		if k == 0 {
+			return t.MinSentence(l.Rule, min, nil)
+		}
+		var out []lexer.TokenType
+		for i, e := range t[l.Rule][l.Alt] {
+			switch {
+			case e.Sym == "":
+				out = append(out, e.Tok)
+			case i == l.Pos:
+				out = append(out, t.via(l.Via, min, func() []lexer.TokenType { return round(k - 1) })...)
+			default:
+				out = append(out, t.MinSentence(e.Sym, min, nil)...)
+			}
+		}
+		return out
+	}
+	return t.via(toRule, min, func() []lexer.TokenType { return round(n) })
+}
